@@ -12,8 +12,11 @@ RULE = ("driver family 'respond': 1-2 simulated interfaces (IPv4 / IPv6 / both, 
 
 
 def run(tier, seed, t0):
-    return daemon.run_group(PROP, tier, seed, t0, [("respond", [])], "TraceRespond", "TraceRespond.cfg", PREFIXES,
-                            [("MCResponder", "MCResponder.cfg")], ["C10.suppressed","C10.kept"], ASSUME, RULE)
+    return daemon.run_group(PROP, tier, seed, t0,
+                            [("respond", []), ("browse", [], "TraceBrowse", "TraceBrowse.cfg", 60, 1500)],
+                            "TraceRespond", "TraceRespond.cfg", PREFIXES,
+                            [("MCResponder", "MCResponder.cfg")], ["C10.suppressed", "C10.kept", "C10.known-answer"], ASSUME,
+                            RULE + " Querier side: driver family 'browse' (known answers the daemon lists in its own initial, retransmitted and refresh queries).")
 
 
 def replay(path, seed):
